@@ -144,6 +144,42 @@ def rows_ok(rows, log, allowed, base):
     return True
 
 
+def body_two_live(E, o1, o2, o3, over1, base, i0, i1, i2, i3, i4, i5):
+    """two Sampler objects alive on one file, used alternately; a per-run combos override must not
+    leak into later runs of the same object"""
+    log = []
+
+    def fn(a, b, c=0):
+        log.append((a, b, c))
+        return payload(base, a, b, c)
+
+    with E() as env:
+        install_choice(env, [i0, i1, i2, i3, i4, i5])
+        name = env.parent + "/samples.pkl"
+        ss = [Sampler(Runner(fn, var_names="out", constants={"c": 7}), data_name=name,
+                      default_combos={"a": CH_A, "b": CH_B}) for _ in range(2)]
+        table = []
+        used_over = [False, False]
+        for step, o in enumerate((o1, o2, o3)):
+            k = 1 if cbool(o) else 0
+            s = ss[k]
+            over = cbool(over1) and step == 0
+            del log[:]
+            s.sample_combos(1, combos={"b": [30]} if over else None, verbosity=0)
+            if over:
+                used_over[k] = True
+            allowed = {"a": CH_A, "b": [30] if over else CH_B}
+            now = rows_of(env, s.full_df)
+            if len(now) != len(table) + 1 or now[:len(table)] != table:
+                return False
+            if not rows_ok(now[len(table):], log, allowed, base):
+                return False
+            if rows_of(env, mg.load_df(name)) != now:
+                return False
+            table = now
+        return True
+
+
 def body_generator(E, n, g0, g1, base):
     """combos values may be callables: their return values are the arguments"""
     n = concretize(n, 1, 2)
@@ -186,6 +222,13 @@ CONDS = (
                  ["eng == 0 and n1 == 1 and n2 == 2 and 1 <= bs <= 2 and 0 <= kind2 <= 1 and not shuf", _I,
                   "i1 == 0 and i5 == 0 and j1 == 0"], timeout=600,
                  bounds="second run with n=2 (batchsize 1 or 2 when through a crop), every drawn index"),
+       make_cond(_G, "two_live", body_two_live,
+                 "o1:bool o2:bool o3:bool over1:bool base:int i0:int i1:int i2:int i3:int i4:int i5:int",
+                 [_I.replace(" and 0 <= j1 <= 1", ""), "i2 == 0 and i3 == 0 and i4 == 0 and i5 == 0"], timeout=600,
+                 bounds="three runs of n=1 issued through either of two simultaneously live Sampler objects on one "
+                        "file (every assignment), the first run optionally with a combos override: every run appends "
+                        "exactly one row to what is on disk, keeps all earlier rows, and draws from the choices in "
+                        "force for that run"),
        make_cond(_G, "generator", body_generator, "n:int g0:int g1:int base:int", ["1 <= n <= 2"], timeout=120,
                  bounds="a callable in combos supplies the argument values (symbolic), n<=2")]
 )
